@@ -39,17 +39,13 @@ Record mech_row := mk_row {
 Definition meth_read_only (m : meth) : bool := is_nil (m_effects m).
 Definition read_only (r : mech_row) : bool := forallb meth_read_only (r_methods r).
 
-(** Finding C17-F1: the method [Get] of [oauth2.MetadataEndpoint] calls [init()] on every
-    request, which lazily writes [Headers], [Method] and [HTTPCache] of the shared
-    endpoint.  An effect is attributed to the finding iff it occurs in that function. *)
-Definition eff_F1 (e : effect) : bool := String.eqb (e_fn e) "(*oauth2.MetadataEndpoint).init".
-Definition guard_F1 (r : mech_row) : bool :=
-  existsb (fun m => existsb eff_F1 (m_effects m)) (r_methods r).
-
-(** what the generated [Example effects_read_only] checks for every row: every
-    listed effect belongs to the recorded finding (so: none, once it is repaired) *)
-Definition row_ok (r : mech_row) : bool :=
-  forallb (fun m => forallb eff_F1 (m_effects m)) (r_methods r).
+(** what the generated [Example effects_read_only] (Gen/EffectsOk.v) checks for every row of the
+    table extracted from the current source: no method of the mechanism type has any effect.
+    (Until the fix: commit 13721c3 the rows of [jwtAuthenticator] and
+    [oauth2IntrospectionAuthenticator] listed the stores of [oauth2.MetadataEndpoint.init] — finding
+    C17-F1; the check was then carried under a guard on exactly those effects.  The pinned rows are
+    kept in C17/Proofs.v as the witness of [F1_pinned_refuted].) *)
+Definition row_ok (r : mech_row) : bool := read_only r.
 
 Definition find_row (tbl : list mech_row) (ty : string) : option mech_row :=
   find (fun r => String.eqb (r_type r) ty) tbl.
@@ -175,9 +171,10 @@ Section Sem.
   Variable tbl : list mech_row.
 
   Inductive step : config -> config -> Prop :=
-  (** a request (or the rule loader calling an accessor) starts executing method [name] *)
+  (** a request (or the rule loader calling an accessor) starts executing method [name]; also a
+      [WithConfig] call that will reject its configuration and return an error *)
   | StCall c i name ws l :
-      In i (c_insts c) -> String.eqb name "WithConfig" = false ->
+      In i (c_insts c) ->
       callable tbl i name -> writes_allowed tbl i name ws -> accesses_of i ws l ->
       step c {| c_store := c_store c; c_insts := c_insts c;
                 c_thr := c_thr c ++ [ {| t_inst := i; t_todo := l; t_fin := None |} ] |}
@@ -269,4 +266,13 @@ Definition run_op (tbl : list mech_row) (c : store * list inst) (o : op) : optio
           end
       | None => None
       end
+  end.
+
+Fixpoint run_ops (tbl : list mech_row) (c : store * list inst) (os : list op) : option (store * list inst) :=
+  match os with
+  | [] => Some c
+  | o :: r => match run_op tbl c o with
+              | Some c' => run_ops tbl c' r
+              | None => None
+              end
   end.
